@@ -134,7 +134,7 @@ def judgeInit (g : Graph) (cfg : Cfg) (targets obs : List Mod) (result : String)
 
 def handleInit (f : List String) : String × String × String :=
   match f with
-  | [gc, ts, obsS, result, keysS, flagsS, depsB, depsA, obs2S, result2, keys2S] =>
+  | [gc, ts, obsS, result, keysS, flagsS, depsB, depsA, obs2S, result2, keys2S, caller] =>
     match gc.splitOn ";" with
     | [n, deps, hi, ie, hs, op, _names] =>
       let g := parseGraph n deps
@@ -155,9 +155,12 @@ def handleInit (f : List String) : String × String × String :=
         "/".intercalate ((List.range g.n).map fun m => showNats (((dependenciesFor g fuel m).getD []).mergeSort))
       let obs2 := listOfNat obs2S
       let (mlog2, mres2, mkeys2) := runInit g cfg targets obs2
-      let model := [mlog, mres, mkeys, mflags, mdeps, mdeps, mlog2, mres2, mkeys2]
+      -- the model's AddDependency is a function of the names passed: the caller's slices are left as they were
+      -- ("-" = the harness built a fresh slice per call or reused its buffer itself)
+      let mcaller := if caller == "-" then "-" else "ok"
+      let model := [mlog, mres, mkeys, mflags, mdeps, mdeps, mlog2, mres2, mkeys2, mcaller]
       let diff := if result.startsWith "add-rejected" then "-"
-        else if model == [obsS, result, keysS, flagsS, depsB, depsA, obs2S, result2, keys2S] then "-"
+        else if model == [obsS, result, keysS, flagsS, depsB, depsA, obs2S, result2, keys2S, caller] then "-"
         else "model=" ++ " ".intercalate model
       -- judge: the reported transitive dependencies are those of the declared edges, before and after
       -- initialisation; the second initialisation satisfies the statement like the first
@@ -168,7 +171,9 @@ def handleInit (f : List String) : String × String × String :=
         (judgeInit g cfg targets obs2 result2 (listOfNat keys2S)).map (fun k => "second-init:" ++ k) ++
         (if depsB != jdeps then ["dependencies-misreported"] else []) ++
         (if depsA != jdeps then ["dependency-graph-changed-by-init"] else []) ++
-        (if result2 != result || keys2S != keysS then ["second-init-differs"] else [])
+        (if result2 != result || keys2S != keysS then ["second-init-differs"] else []) ++
+        -- the declared graph is the one the caller wrote down: its own table of names must still say so
+        (if caller == "modified" then ["caller-slice-modified"] else [])
       -- flags: a user-visible module is targetable; nothing is said about unregistered modules
       let j := match flagsS.splitOn ";" with
         | [_, vb, tb, sorted] =>
